@@ -366,8 +366,9 @@ def check_extend(rep, F):
             d = sp.simplify(gv - first) if not isinstance(gv, (tuple, sp.Matrix)) else None
             RCs = S(pp + ".root_converged")
             unconv = [Fn("count")(("==", RCs, False)) if False else None]
-            d_ok = d is not None and ((str(getattr(d, "func", "")) == "count" and "root_converged" in str(d) and "False" in str(d)) or
-                                      sp.simplify(d - (Fn("size")(RCs) - Fn("count")(RCs))) == 0)
+            # the number of unconverged roots: (rc == false).count(), (!rc).count() or size - rc.count()
+            d_ok = d is not None and ((str(getattr(d, "func", "")) == "count" and "root_converged" in str(d) and ("False" in str(d) or "operator!(" in str(d) or "!(" in str(d)))
+                                      or sp.simplify(d - (Fn("size")(RCs) - Fn("count")(RCs))) == 0)
             ok = not first.has(ksym) and str(first) == "cols(%s.V)" % pp and d_ok
             base = first
             why = "the search space is resized to %s while columns are written from %s on" % (gv, base)
